@@ -516,3 +516,24 @@ func (r *Run) callSync(f *Closure, args []Value) (res Value, ok bool) {
 	}
 	return holder.env[0], true
 }
+
+// sourceLine returns the trimmed text of a source line (overlay files included).
+func (e *Engine) sourceLine(file string, line int) string {
+	e.mu.Lock()
+	defer e.mu.Unlock()
+	if e.srcLines == nil {
+		e.srcLines = map[string][]string{}
+	}
+	ls, ok := e.srcLines[file]
+	if !ok {
+		buf, err := os.ReadFile(file)
+		if err == nil {
+			ls = strings.Split(string(buf), "\n")
+		}
+		e.srcLines[file] = ls
+	}
+	if line-1 >= 0 && line-1 < len(ls) {
+		return strings.TrimSpace(ls[line-1])
+	}
+	return fmt.Sprintf("%s:%d", filepath.Base(file), line)
+}
